@@ -22,6 +22,8 @@ type matcher struct {
 	labels []string
 	forced []string // when non-nil only this labeling (prefix) is explored
 
+	alive map[int]bool // filled by explore
+
 	steps int // successful row consumptions (each is one partial match the engine keeps alive)
 	work  int // all consumption attempts
 	limit int
@@ -33,6 +35,8 @@ type startInfo struct {
 	maxLen  int
 	lens    map[int]bool
 	longest map[string]bool // labelings of maximal length, "A,B,B"
+	// alive[d]: some valid partial labeling of d rows is still waiting for a further row
+	alive map[int]bool
 }
 
 func (m *matcher) cond(sym string, pos int) bool {
@@ -79,6 +83,9 @@ func (m *matcher) node(n *Pat, pos int, k func(pos int)) {
 	}
 	switch n.K {
 	case "lit":
+		if m.alive != nil && pos > m.start {
+			m.alive[pos-m.start] = true
+		}
 		if pos >= len(m.rows) {
 			return
 		}
@@ -135,19 +142,36 @@ func (m *matcher) seq(ch []Pat, pos int, k func(pos int)) {
 	m.node(&ch[0], pos, func(p int) { m.seq(ch[1:], p, k) })
 }
 
+// rep enumerates X{Min,Max}. Bounded: Min mandatory copies followed by Max-Min copies each of which is
+// independently taken or left out (the definition the engine documents for {n,m}; it also makes the
+// number of partial labelings visited here an upper bound of the partial matches the engine keeps, which
+// is what the guard-risk rule needs). Unbounded: Min copies, then any number of further non-empty ones.
 func (m *matcher) rep(n *Pat, count, pos int, k func(pos int)) {
 	if m.over {
 		return
 	}
-	if count >= n.Min {
-		k(pos)
-	}
-	if n.Max >= 0 && count >= n.Max {
+	if count < n.Min {
+		m.node(&n.C[0], pos, func(p int) { m.rep(n, count+1, p, k) })
 		return
 	}
+	if n.Max < 0 {
+		k(pos)
+		m.node(&n.C[0], pos, func(p int) {
+			if p == pos {
+				return // an empty iteration adds nothing
+			}
+			m.rep(n, count, p, k)
+		})
+		return
+	}
+	if count >= n.Max {
+		k(pos)
+		return
+	}
+	m.rep(n, count+1, pos, k) // leave this optional copy out
 	m.node(&n.C[0], pos, func(p int) {
-		if p == pos && count >= n.Min {
-			return // an empty iteration beyond the minimum adds nothing
+		if p == pos {
+			return
 		}
 		m.rep(n, count+1, p, k)
 	})
@@ -170,7 +194,9 @@ func (m *matcher) explore(p *Pat, start int) startInfo {
 	m.start = start
 	m.labels = m.labels[:0]
 	m.forced = nil
-	si := startInfo{lens: map[int]bool{}, longest: map[string]bool{}}
+	si := startInfo{lens: map[int]bool{}, longest: map[string]bool{}, alive: map[int]bool{}}
+	m.alive = si.alive
+	defer func() { m.alive = nil }()
 	m.node(p, start, func(pos int) {
 		n := pos - start
 		if n == 0 {
